@@ -1,7 +1,10 @@
 (* line driver for the C02 acceptor.  input, one recorded run per line:
      <n> <q0,q1,...> <event> <event> ...      events: E.<t>.<i> (pipeline entered)   X.<t>.<i>.<sq> (sink received)
    (other tokens, e.g. the lock-acquisition records L.* / M.*, are ignored).
-   output per line: "<accept_conc 1|0> <prop_c02_b 1|0> <number of leading events the acceptor takes> <events>" *)
+   output per line: "<accept_conc 1|0> <prop_c02_b 1|0> <number of leading events the acceptor takes> <events>"
+   signal traces:   sig <home> <event> ...       events: X.<t>.<i>.<sq> (recording sink)  S.<t>.<i>.<sq> (signal emitted)
+                                                          Q.<t>.<i>.<sq> (AutoConnection receiver living in thread <home> got it)
+   output per line: "<accept_sig 1|0> <prop_sig_b 1|0> <prop_sig_strict_b 1|0> <leading events taken> <events>" *)
 open Conc_model
 let tbl = ref [| O |]
 let nat_of_int n =
@@ -19,13 +22,25 @@ let rec int_of_nat = function O -> 0 | S n -> 1 + int_of_nat n
 let () =
   if Array.length Sys.argv > 1 && Sys.argv.(1) = "static" then begin
     (* static facts about the translated entry points {macro, direct process(), fatal macro} *)
-    Printf.printf "family_bracketed=%b full_family_guarded=%b direct_and_fatal_guarded=%b\n"
-      src_family_bracketed src_full_family_guarded src_direct_and_fatal_guarded;
+    Printf.printf "family_bracketed=%b full_family_guarded=%b direct_and_fatal_guarded=%b reset_ok=%b signal_anchors=%b\n"
+      src_family_bracketed src_full_family_guarded src_direct_and_fatal_guarded src_reset_is_ok src_signal_anchors;
     exit 0
   end;
   try while true do
     let line = input_line stdin in
     match List.filter (fun s -> s <> "") (String.split_on_char ' ' line) with
+    | "sig" :: hs :: toks ->
+      let ent t i s = ((nat_of_int (int_of_string t), nat_of_int (int_of_string i)), nat_of_int (int_of_string s)) in
+      let evs = List.filter_map (fun tok ->
+        match String.split_on_char '.' tok with
+        | ["X"; t; i; s] -> Some (SX (ent t i s))
+        | ["S"; t; i; s] -> Some (SS (ent t i s))
+        | ["Q"; t; i; s] -> Some (SQ (ent t i s))
+        | _ -> None) toks in
+      let home = nat_of_int (int_of_string hs) in
+      let b x = if x then 1 else 0 in
+      Printf.printf "%d %d %d %d %d\n" (b (accept_sig home evs)) (b (prop_sig_b home evs)) (b (prop_sig_strict_b evs))
+        (int_of_nat (sig_prefix home ss0 evs)) (List.length evs)
     | ns :: qs :: toks ->
       let n = int_of_string ns in
       let q = Array.of_list (List.map int_of_string (List.filter (fun s -> s <> "") (String.split_on_char ',' qs))) in
